@@ -182,6 +182,10 @@ def c15_oligo(rep, d, inputs, tier):
                         for t in (0, 1, 2, 16):
                             for src in ("fa", "fq", "fa.gz", "stdin"):
                                 cases.append((name, k, preset, counts, header, t, src))
+                        if name == "in37" and preset == "spc":
+                            # far more threads than cores and than records
+                            cases.append((name, k, preset, counts, header, 64, "fa"))
+                            cases.append((name, k, preset, counts, header, 200, "stdin"))
 
     def do_lib(key):
         name, k, preset, counts, header = key
